@@ -135,7 +135,10 @@ public:
         // Build first level
         auto in_fun = [&](auto i) { return first[i]; };
         auto out_fun = [&](auto cs) { segments.emplace_back(cs); };
-        auto last_n = internal::make_segmentation_par(n, Epsilon, in_fun, out_fun);
+        // The segmentation is not split in parallel chunks: CompressedLevel stores strictly increasing intercepts, which
+        // is lossless only if consecutive segments start more than 2*Epsilon positions apart (true for maximal segments,
+        // false for the short segments that end a chunk: there an intercept would be moved up and keys lost)
+        auto last_n = internal::make_segmentation(n, Epsilon, in_fun, out_fun);
         levels_offsets.push_back(levels_offsets.back() + last_n);
 
         // Build upper levels
